@@ -1,18 +1,19 @@
 """Triage of iteration-order sites (C18 / C15 / C17): order-insensitive uses that the automatic consumer rules cannot
 see.  Keyed by (module, function, rename-stable site key, consumer kind); one reason per line, each confirmed by reading."""
 
+# Data facts the own-entry effect rule (core/ordertaint.own_entry_effects) relies on: a table entry loaded before a loop over a set
+# is not the entry of an element of that set.  Keyed by (module, class, table expression).
+DISTINCT_ENTRIES = {
+    ('counting_interpreter', 'CountingInterpreter', 'self._pattern_usage'):
+        'the statistics of the pattern being memoized are read while its dependents / the recomputed entries are rewritten; a pattern '
+        'is a finite tree, so it is never among the patterns that contain it (used_patterns holds proper sub-patterns only), and the '
+        'score recomputation reads nothing but the entry it rewrites',
+}
+
 ORDER_SAFE = {
     # key: (module, function, rename-stable site key, consumer kind).  The site key (core/localkeys.py) is the definition of the
     # iterated local and the consuming construct with every name bound in the function masked as `_`: renaming locals keeps the
     # entry, editing the loop body orphans it (the reason below is a statement about that body and has to be re-read).
-    ('counting_interpreter', 'CountingInterpreter.finalize',
-     'def:{_ for _, _ in self._pattern_usage.items() if _ in _.used_patterns} @ for _ in _: _ = self._pattern_usage[_] _.add(_) '
-     'self._pattern_usage[_] = self._pattern_usage[_]._replace(complexity=_.complexity - _.complexity * _.used_patterns[_] + 1) '
-     'for _ in _.used_patterns: self._pattern_usage[_].used_patterns[_] -= _.used_patterns[_] * _.used_patterns[_]', 'for'):
-        '(`dependencies`) each iteration rewrites only the statistics entry of its own element (existing key, no insertion) from '
-        'values that do not depend on the other iterations',
-    ('counting_interpreter', 'CountingInterpreter.finalize', 'def:set() @ for _ in _: self._compute_complexity_score(_)', 'for'):
-        '(`requires_updating`) each iteration recomputes the score of its own element only',
     ('interpreter', 'Interpreter.interpreting_warnings', 'expr:self._interpreting_warnings @ list(self._interpreting_warnings)', 'call:list'):
         'the warnings are only printed on stdout by check_interpreting; they never reach the gamma/claim/proof files',
     ('k.kore_convertion.language_semantics', 'LanguageSemantics.notations', 'expr:self._inferred_notations @ *self._inferred_notations', 'star'):
